@@ -7,9 +7,9 @@
 # remove it with: git -C /repo worktree remove --force /tmp/confirm/repo
 set -u
 export CARGO_NET_OFFLINE=true
-W=/tmp/confirm/repo
+W="${CONFIRM_WS:-/tmp/confirm}/repo"
 if [ ! -d "$W" ]; then
-  mkdir -p /tmp/confirm
+  mkdir -p "$(dirname "$W")"
   git -C /repo worktree prune
   git -C /repo worktree add --detach "$W" HEAD >/dev/null 2>&1 || exit 2
 fi
